@@ -50,6 +50,17 @@ inductive DecompositionType where
   | None | Independent | Identity | Negation | And | Or | Le | Lt | Xor
 deriving DecidableEq, Repr
 
+namespace DecompositionType
+/-- `is_trivial` -/
+def isTrivial (d : DecompositionType) : Bool := d == .Independent || d == .Identity || d == .Negation
+/-- `is_and_type` -/
+def isAndType (d : DecompositionType) : Bool := d == .And || d == .Or || d == .Le || d == .Lt
+/-- `is_xor_type` -/
+def isXorType (d : DecompositionType) : Bool := d == .Xor
+/-- `is_simple_gate` -/
+def isSimpleGate (d : DecompositionType) : Bool := d == .And || d == .Or || d == .Le || d == .Lt || d == .Xor
+end DecompositionType
+
 /-- the priority chain of `top_decomposition` -/
 def decompChain (indep and or nand nor xor : Bool) : DecompositionType :=
   if indep then .Independent
